@@ -3,6 +3,7 @@
 package main
 
 import (
+	"context"
 	"encoding/json"
 	"fmt"
 	"reflect"
@@ -16,24 +17,25 @@ import (
 
 // CV mirrors Model/Concat.v's cval.
 type CV struct {
-	K   string         `json:"k"` // str | num | nil | other | map
-	S   string         `json:"s,omitempty"`
-	Kind int           `json:"kind,omitempty"` // num: 0 int, 1 int64, 2 bool, 3 float64
-	Z   int64          `json:"z,omitempty"`
-	Tag int            `json:"tag,omitempty"`
-	P   int            `json:"p,omitempty"`
-	M   map[string]*CV `json:"m,omitempty"`
-	MT  int            `json:"mt,omitempty"` // map: 0 map[string]any, 1 map[string]string (every value a str)
+	K    string         `json:"k"` // str | num | nil | other | map
+	S    string         `json:"s,omitempty"`
+	Kind int            `json:"kind,omitempty"` // num: 0 int, 1 int64, 2 bool, 3 float64
+	Z    int64          `json:"z,omitempty"`
+	Tag  int            `json:"tag,omitempty"`
+	P    int            `json:"p,omitempty"`
+	M    map[string]*CV `json:"m,omitempty"`
+	MT   int            `json:"mt,omitempty"` // map: 0 map[string]any, 1 map[string]string (every value a str), 2 map[string]int (every value an int)
 }
 
 // unregistered types ("other", by tag): 0 S0, 1 S1 (structs), 2 MyStr (named string),
 // 3 MyInt (named int), 4 *S0, 5 *S1. Payload p = 0 is the zero value of the type.
+// Types with a concat function registered by this harness (user.go): 6 Acc, 7 Lim.
 type S0 struct{ A int }
 type S1 struct{ B int }
 type MyStr string
 type MyInt int
 
-const nOtherTags = 6
+const nOtherTags = 8
 
 func otherToGo(tag, p int) any {
 	switch tag {
@@ -53,6 +55,10 @@ func otherToGo(tag, p int) any {
 			return (*S0)(nil)
 		}
 		return &S0{A: p}
+	case 6:
+		return Acc{N: p}
+	case 7:
+		return Lim{N: p}
 	default:
 		if p == 0 {
 			return (*S1)(nil)
@@ -85,6 +91,13 @@ func (v *CV) toGo() any {
 			m := make(map[string]string, len(v.M))
 			for k, e := range v.M {
 				m[k] = e.S
+			}
+			return m
+		}
+		if v.MT == 2 {
+			m := make(map[string]int, len(v.M))
+			for k, e := range v.M {
+				m[k] = int(e.Z)
 			}
 			return m
 		}
@@ -139,12 +152,22 @@ func fromGo(x any) *CV {
 			return &CV{K: "other", Tag: 5, P: 0}
 		}
 		return &CV{K: "other", Tag: 5, P: t.B}
+	case Acc:
+		return &CV{K: "other", Tag: 6, P: t.N}
+	case Lim:
+		return &CV{K: "other", Tag: 7, P: t.N}
 	case map[string]string:
 		m := map[string]*CV{}
 		for k, e := range t {
 			m[k] = &CV{K: "str", S: e}
 		}
 		return &CV{K: "map", MT: 1, M: m}
+	case map[string]int:
+		m := map[string]*CV{}
+		for k, e := range t {
+			m[k] = &CV{K: "num", Kind: 0, Z: int64(e)}
+		}
+		return &CV{K: "map", MT: 2, M: m}
 	case map[string]any:
 		m := map[string]*CV{}
 		for k, e := range t {
@@ -186,12 +209,15 @@ func (v *CV) coq() string {
 
 // Case: a statically typed chunk list.
 type Case struct {
-	Kind   string   `json:"kind"` // "generic" | "msg" | "msglist"
+	Kind   string   `json:"kind"` // "generic" | "msg" | "msglist" | "msgmap"
 	Chunks []*CV    `json:"chunks,omitempty"`
 	API    int      `json:"api,omitempty"`   // msg: which entry point is sent to the model (see msg.go)
 	Chain  bool     `json:"chain,omitempty"` // msg: also run through a compose chain
 	Msgs   []*Msg   `json:"msgs,omitempty"`
 	Lists  [][]*Msg `json:"lists,omitempty"`
+	MMaps  []MMap   `json:"mmaps,omitempty"` // msgmap: map chunks whose values may be messages
+	Typed  bool     `json:"typed,omitempty"` // msgmap: static type map[string]*schema.Message instead of map[string]any
+	Fanin  bool     `json:"fanin,omitempty"` // msgmap: every chunk holds one message under one key; also run as a compose fan-in
 }
 
 type Obs struct {
@@ -247,8 +273,14 @@ func concatGo(chunks []*CV) (o Obs) {
 			out, err = concatTyped[*S0](vals)
 		case *S1:
 			out, err = concatTyped[*S1](vals)
+		case Acc:
+			out, err = concatTyped[Acc](vals)
+		case Lim:
+			out, err = concatTyped[Lim](vals)
 		case map[string]string:
 			out, err = concatTyped[map[string]string](vals)
+		case map[string]int:
+			out, err = concatTyped[map[string]int](vals)
 		case map[string]any:
 			out, err = concatTyped[map[string]any](vals)
 		default:
@@ -262,6 +294,38 @@ func concatGo(chunks []*CV) (o Obs) {
 		return Obs{Class: "err", Msg: err.Error()}
 	}
 	return Obs{Class: "val", Val: fromGo(out)}
+}
+
+// concatViaChain: the same chunk list as the output stream of a streamable lambda in a
+// compiled chain called with Invoke (the engine has to turn the stream into a value).
+func concatViaChain[T any](chunks []*CV) (o Obs) {
+	items := make([]T, len(chunks))
+	for i, c := range chunks {
+		if v := c.toGo(); v != nil {
+			items[i] = v.(T)
+		}
+	}
+	var out T
+	var err error
+	p := lib.Recover(func() {
+		ctx := context.Background()
+		ch := compose.NewChain[string, T]()
+		ch.AppendLambda(compose.StreamableLambda(func(ctx context.Context, in string) (*schema.StreamReader[T], error) {
+			return schema.StreamReaderFromArray(items), nil
+		}))
+		r, cerr := ch.Compile(ctx)
+		if cerr != nil {
+			panic("harness: chain does not compile: " + cerr.Error())
+		}
+		out, err = r.Invoke(ctx, "")
+	})
+	if p != nil {
+		return Obs{Class: "panic", Msg: fmt.Sprint(p)}
+	}
+	if err != nil {
+		return Obs{Class: "err", Msg: err.Error()}
+	}
+	return Obs{Class: "val", Val: fromGo(any(out))}
 }
 
 func (o Obs) coq() string {
@@ -318,18 +382,21 @@ const (
 	tdMyInt
 	tdPS0
 	tdPS1
+	tdAcc
+	tdLim
 	tdMapAny
 	tdMapStr
+	tdMapInt
 	tdNil
 	nTD
 )
 
 // same reflect.Kind, different Go type
-var sibling = map[int]int{tdStr: tdMyStr, tdMyStr: tdStr, tdInt: tdMyInt, tdMyInt: tdInt, tdS0: tdS1, tdS1: tdS0,
-	tdPS0: tdPS1, tdPS1: tdPS0, tdMapAny: tdMapStr, tdMapStr: tdMapAny}
+var sibling = map[int]int{tdStr: tdMyStr, tdMyStr: tdStr, tdInt: tdMyInt, tdMyInt: tdInt, tdS0: tdS1, tdS1: tdAcc,
+	tdPS0: tdPS1, tdPS1: tdPS0, tdMapAny: tdMapStr, tdMapStr: tdMapInt, tdMapInt: tdMapAny, tdAcc: tdLim, tdLim: tdS0}
 
-var tdNames = []string{"string", "int", "int64", "bool", "float64", "S0", "S1", "MyStr", "MyInt", "*S0", "*S1",
-	"map[string]any", "map[string]string", "nil"}
+var tdNames = []string{"string", "int", "int64", "bool", "float64", "S0", "S1", "MyStr", "MyInt", "*S0", "*S1", "Acc", "Lim",
+	"map[string]any", "map[string]string", "map[string]int", "nil"}
 
 func genVal(r *lib.Rng, td, depth int) *CV {
 	payload := []int{0, 0, 1, 2}[r.Intn(4)]
@@ -342,6 +409,9 @@ func genVal(r *lib.Rng, td, depth int) *CV {
 		return &CV{K: "num", Kind: 2, Z: int64(r.Intn(2))}
 	case tdS0, tdS1, tdMyStr, tdMyInt, tdPS0, tdPS1:
 		return &CV{K: "other", Tag: map[int]int{tdS0: 0, tdS1: 1, tdMyStr: 2, tdMyInt: 3, tdPS0: 4, tdPS1: 5}[td], P: payload}
+	case tdAcc, tdLim:
+		// registered custom types: payloads 0..3 (Lim fails when the sum exceeds 5)
+		return &CV{K: "other", Tag: map[int]int{tdAcc: 6, tdLim: 7}[td], P: r.Intn(4)}
 	case tdMapAny:
 		if depth <= 0 {
 			return &CV{K: "map", M: map[string]*CV{}}
@@ -353,6 +423,12 @@ func genVal(r *lib.Rng, td, depth int) *CV {
 			m[r.Pick(keyPool)] = &CV{K: "str", S: r.Pick(strPool)}
 		}
 		return &CV{K: "map", MT: 1, M: m}
+	case tdMapInt:
+		m := map[string]*CV{}
+		for j, nk := 0, r.Intn(3); j < nk; j++ {
+			m[r.Pick(keyPool)] = &CV{K: "num", Kind: 0, Z: int64(r.Range(-2, 3))}
+		}
+		return &CV{K: "map", MT: 2, M: m}
 	}
 	return &CV{K: "nil"}
 }
@@ -370,7 +446,7 @@ func genMap(r *lib.Rng, depth int, keyTypes map[string]int) *CV {
 		if !seen {
 			td = r.Intn(nTD)
 			if r.Chance(1, 3) {
-				td = []int{tdStr, tdMapAny, tdInt}[r.Intn(3)]
+				td = []int{tdStr, tdMapAny, tdInt, tdAcc, tdLim}[r.Intn(5)]
 			}
 			keyTypes[k] = td
 		} else if r.Chance(1, 12) {
@@ -402,6 +478,7 @@ func genGeneric(r *lib.Rng, tier string) *Case {
 	if r.Chance(2, 5) {
 		top = r.Intn(nTD - 1) // every type but nil
 	}
+	c.Chain = r.Chance(1, 3)
 	for i := 0; i < n; i++ {
 		if top == tdMapAny {
 			c.Chunks = append(c.Chunks, genMap(r, depth, keyTypes))
@@ -418,7 +495,7 @@ type engine struct{}
 
 func (engine) ID() string { return "C14" }
 func (engine) CoqHeader() string {
-	return "From Eino Require Import Base.Util Model.Concat Model.ConcatMsg Corr.C14.\n"
+	return "From Eino Require Import Base.Util Model.Concat Model.ConcatMsg Model.ConcatMsgMap Corr.C14.\n"
 }
 func (engine) CoqCaseType() string { return "ccase" }
 
@@ -449,12 +526,40 @@ func (engine) Run(ci any) lib.Result {
 	if len(c.Chunks) > 0 {
 		res.Tags = append(res.Tags, "top:"+c.Chunks[0].K)
 	}
+	if usesRegistered(c.Chunks) {
+		res.Tags = append(res.Tags, "feat:registered-type")
+	}
 	res.Tags = append(res.Tags, clashTags(c.Chunks)...)
 	res.Nontrivial = len(c.Chunks) >= 2
 	res.CoqTerm = lib.CoqApp("CaseGen", lib.CoqList(mapCoq(c.Chunks)), o.coq())
 
+	// the public path: a compiled chain that must concatenate a node's output stream
+	if len(c.Chunks) > 0 && c.Chain {
+		var oc Obs
+		known := true
+		switch c.Chunks[0].toGo().(type) {
+		case string:
+			oc = concatViaChain[string](c.Chunks)
+		case map[string]any:
+			oc = concatViaChain[map[string]any](c.Chunks)
+		case Acc:
+			oc = concatViaChain[Acc](c.Chunks)
+		case S0:
+			oc = concatViaChain[S0](c.Chunks)
+		default:
+			known = false
+		}
+		if known {
+			res.Tags = append(res.Tags, "api:chain.Invoke")
+			if !obsEqual(o, oc) {
+				res.Oracle = "chain.Invoke and concatStreamReader disagree: " + js(oc) + " vs " + js(o)
+				res.Sig = "generic-api-disagree"
+			}
+		}
+	}
 	// direct oracle: total (no panic), deterministic, re-chunking invariant
 	switch {
+	case res.Oracle != "":
 	case o.Class == "panic":
 		res.Oracle = "concatenation panicked: " + o.Msg
 		res.Sig = "generic-panic"
@@ -508,10 +613,13 @@ func goTypeName(v *CV) string {
 	case "num":
 		return []string{"int", "int64", "bool", "float64"}[v.Kind]
 	case "other":
-		return []string{"S0", "S1", "MyStr", "MyInt", "*S0", "*S1"}[v.Tag]
+		return []string{"S0", "S1", "MyStr", "MyInt", "*S0", "*S1", "Acc", "Lim"}[v.Tag]
 	case "map":
 		if v.MT == 1 {
 			return "map[string]string"
+		}
+		if v.MT == 2 {
+			return "map[string]int"
 		}
 		return "map[string]any"
 	}
@@ -519,7 +627,7 @@ func goTypeName(v *CV) string {
 }
 
 var kindOf = map[string]string{"string": "string", "MyStr": "string", "int": "int", "MyInt": "int", "S0": "struct", "S1": "struct",
-	"*S0": "ptr", "*S1": "ptr", "map[string]any": "map", "map[string]string": "map", "int64": "int64", "bool": "bool", "float64": "float64"}
+	"*S0": "ptr", "*S1": "ptr", "Acc": "struct", "Lim": "struct", "map[string]any": "map", "map[string]string": "map", "map[string]int": "map", "int64": "int64", "bool": "bool", "float64": "float64"}
 
 // clashTags reports whether some key (at any depth, following the first map per key) holds
 // values of different Go types, and whether two of them share a reflect.Kind.
